@@ -16,6 +16,42 @@ def main(tier, seed):
     bins = [("dev", vlib.build_harness("dev")), ("release", vlib.build_harness("release"))]
     progs = scenarios.iteration_scenarios(rng, 1500 if tier == "quick" else 25000)
     profcheck.run_scenarios(rep, "iteration", progs, bins, PROP)
+    # strings are iterable too: one character per step, for every string of <= 3 characters over an alphabet with 1-, 2-, 3- (lead
+    # bytes E0 and E2) and 4-byte characters (Strings.tla), through a for loop, through the adapters and through manual next()
+    from checks import c13
+    from vlib import run_tlc, Pool
+    got = []
+    res = run_tlc("MC_Strings", "Strings_U.cfg", workers=6, timeout=1200, keep_lines=False, tag="c18str",
+                  on_line=lambda t, o: got.append(o) if t == "CASE" and o["c"]["op"] == "iterate" else None)
+    if res.violation:
+        rep.violation("Strings.tla: TLC reports\n" + res.violation[:1500], {"tlc": res.violation})
+    nstr = 0
+    per = 40
+    for bname, binary in bins:
+        items = []
+        for i in range(0, len(got), per):
+            chunk = got[i:i + per]
+            lines = []
+            for x in chunk:
+                lit_ = c13.s_lit(x["c"]["s"])
+                lines.append("{ var a = []; for ch in %s { a.push(ch); } var it = %s.iter(); var b = []; var n = it.next(); while !n.derives(StopIter) { b.push(n); n = it.next(); } "
+                             "print(a); print(b); print(%s.iter().map(|c| c).collect()); }" % (lit_, lit_, lit_))
+            items.append({"id": i, "main": "\n".join(lines) + "\n", "gc": "default"})
+        for it, r in zip(items, Pool(binary, "run", timeout=60).map(items)):
+            chunk = got[it["id"]:it["id"] + per]
+            if "runs" not in r or not r["runs"][0].get("ok") or len(r["runs"][0]["out"]) != 3 * len(chunk):
+                rep.violation("iterating strings (%s build): the program did not run to its end: %r" % (bname, {k: r[k] for k in r if k != "events"}), {"source": it["main"]})
+                continue
+            out = r["runs"][0]["out"]
+            for j, x in enumerate(chunk):
+                nstr += 1
+                want = c13.expected_lines(x["c"], x["r"])[0]
+                if out[3 * j:3 * j + 3] != [want] * 3:
+                    rep.violation("iterating %s (%s build) by for / by next() / through map+collect gives %r, the specification %r"
+                                  % (c13.s_lit(x["c"]["s"]), bname, out[3 * j:3 * j + 3], want), {"case": x})
+    rep.coverage["strings_iterated"] = nstr
+    rep.coverage["states"] += res.distinct
+    rep.coverage["traces_validated_against_impl"] += nstr
     rep.coverage["exhaustive"] = False
     rep.sample({"kind": "iteration scenario", "source": yprog.program_src(progs[3][1])})
     rep.coverage["rule"] = ("seeded products: 13 iterables (empty / one / three element vectors, tuples, ascending / descending / empty ranges, "
@@ -24,5 +60,4 @@ def main(tier, seed):
                             "interleaved loops over one iterator, push / pop on the vector being iterated, manual next) at top level or inside a "
                             "function; the for statement is desugared in Machine.tla exactly as the compiler does (iter(), next(), assign, "
                             "test StopIter) and map / filter / collect / reduce are core.yl's own code run by the machine")
-    rep.assumptions += ["string iteration is decided by C13's byte-level model, not here"]
     return rep.finish()
